@@ -37,6 +37,7 @@ def run(ctx):
     ctx.step(noexcept_rule, ctx)
     ctx.step(dtor_rule, ctx)
     ctx.step(fresh_count, ctx)
+    ctx.step(resident, ctx)
     ctx.step(common.no_repeated_moves, ctx, "C16.moves",
              [f for f in ctx.fb.functions() if f.file.endswith("/DelayedDestructor.hpp")], floor=1)
     ctx.step(common.raii_only, ctx, "C16.raii", ["DelayedDestructor.hpp"], floor=10)
@@ -387,6 +388,73 @@ def select(ctx, cls):
         ok = bool(cbs) and all(not f.reach_avoiding(f.pos_of(c), f.pos_of(cb), []) for c in clears for cb in cbs)
         ctx.ob(rid, ok, f.where, "callbacks run before the objects are released (no callback is reachable after the clear)",
                "", fn=f.label, inst=f.qname)
+
+
+def resident(ctx, rid="C16.resident"):
+    """an object that still has other owners stays IN the container for as long as the container is unlocked: size(),
+    a concurrent destroyObjects() and the destructor's drain loop decide by what they find there.  A member function
+    that takes the whole list out (swap with a local, std::move, clear, assignment) must have put back what is not
+    reaped before it lets go of destructionLock - otherwise concurrent callers see an empty container while objects are
+    pending (and the destructor can finish without them)."""
+    ctx.rule(rid, "the pending list is never taken out of the container as a whole across an unlocked phase", floor=0)
+    fb, eng = ctx.fb, ctx.eng
+    FIELD = "this.ElementsToBeDestroyed"
+    n = 0
+    for f in fb.functions(rec=DD):
+        if f.kind in ("ctor", "dtor"):
+            continue
+        la = eng.locks(f)
+
+        def lock_state(pos):
+            for k, v in la.state_at(pos).items():
+                if v.mutex == LOCK:
+                    return v.st
+            return UNOWNED
+        outs, backs = [], []
+        for st in f.stmts.values():
+            pos = f.pos_of(st)
+            if pos is None:
+                continue
+            if st["k"] == "CXXMemberCallExpr":
+                nm = (st.get("callee") or {}).get("name")
+                op_ = path(f, f.s(st.get("obj")))
+                args = [path(f, f.s(a)) for a in st["args"]]
+                if nm == "swap" and (op_ == FIELD or FIELD in args):
+                    outs.append((st, "swapped with %s" % (args[0] if op_ == FIELD else op_)))
+                    backs.append(tuple(pos))
+                elif op_ == FIELD and nm == "clear":
+                    outs.append((st, "cleared"))
+                elif op_ == FIELD and nm in ("insert", "push_back", "emplace_back", "assign", "emplace"):
+                    backs.append(tuple(pos))
+            elif st["k"] == "CallExpr" and callee_fq(st) in ("std::swap", "std::exchange") and \
+                    any(path(f, f.s(a)) == FIELD for a in st["args"]):
+                outs.append((st, callee_fq(st)))
+                backs.append(tuple(pos))
+            elif st["k"] == "CallExpr" and callee_fq(st) == "std::move" and st["args"] and path(f, f.s(st["args"][0])) == FIELD and \
+                    (f.s(st["args"][0]) or {}).get("t", "").startswith("std::vector<"):
+                outs.append((st, "moved from"))
+            elif st["k"] == "CXXOperatorCallExpr" and st.get("op") == "=" and len(st["args"]) == 2 and \
+                    path(f, f.s(st["args"][0])) == FIELD:
+                backs.append(tuple(pos))
+        for st, how in outs:
+            n += 1
+            p0 = tuple(f.pos_of(st))
+            others = [b for b in backs if b != p0]
+            bad = None
+            if f.exits_avoiding(p0, others):
+                bad = "the function can return without putting the list back"
+            for q in f.positions():
+                q = tuple(q)
+                if q != p0 and lock_state(q) != HELD and f.reach_avoiding(p0, q, others):
+                    e = f.elem(q)
+                    if e["k"] == "S":
+                        bad = "destructionLock is not held at %s while the list is still out of the container" % f.loc(f.stmts[e["s"]])
+                        break
+            ctx.ob(rid, bad is None, f.loc(st), "%s: ElementsToBeDestroyed is %s and restored within the same critical section"
+                   % (f.name, how), "" if bad is None else bad + ": size(), a concurrent destroyObjects() and the destructor's "
+                   "drain loop see an empty container although objects are still pending", fn=f.label, inst=f.qname)
+    if n == 0:
+        ctx.ob(rid, True, "gmlc/concurrency/DelayedDestructor.hpp", "no member function takes the pending list out as a whole")
 
 
 def noexcept_rule(ctx, rid="C16.noexcept"):
